@@ -24,7 +24,7 @@ def npm_spec(rng, u):
     return rng.choice([v, "^" + v, "~" + v, ">=" + v, f">={v} <{int(v[0]) + 1}.0.0", f"{v} - {int(v[0]) + 1}.0.0", f"^{v} || ^{int(v[0]) + 2}.0.0", "v" + v, v + "-beta.1"])
 
 
-NAMES = ["lodash", "react", "left-pad", "@types/node", "@scope/pkg", "chalk", "a", "é-pkg", "under_score", "dot.js"]
+NAMES = ["lodash", "react", "left-pad", "@types/node", "@scope/pkg", "chalk", "a", "é-pkg", "under_score", "dot.js", "😀-pkg", "日本😀é"]   # incl. characters outside the BMP (two UTF-16 units each)
 
 
 def gen_package_json(rng):
@@ -90,7 +90,7 @@ NOT_DEP_TABLES = ["package.metadata.bundle.dependencies", "workspace.metadata.to
                   "features", "package.metadata.docs.rs", "patch.crates-io", "x.dependencies", "dependencies-extra", "target.dependencies"]
 
 
-GOPATHS = ["golang.org/x/text", "github.com/a/b", "github.com/c/d/v2", "example.com/e", "gopkg.in/yaml.v3", "github.com/é/x"]
+GOPATHS = ["golang.org/x/text", "github.com/a/b", "github.com/c/d/v2", "example.com/e", "gopkg.in/yaml.v3", "github.com/é/x", "example.com/😀/y"]
 
 
 def gen_go(rng):
